@@ -17,7 +17,7 @@ T == Rec[l].t
 SetOf(seq) == {seq[k] : k \in 1..Len(seq)}
 
 BlockOf(r) == [n |-> r.n, locs |-> SetOf(r.locs), pre |-> r.ref[1], ref |-> r.ref, refkind |-> r.refkind,
-               fatal_at |-> r.fatal_at, progs |-> <<>>, resetOf |-> r.resetOf]
+               fatal_at |-> r.fatal_at, progs |-> <<>>, resetOf |-> r.resetOf, nonceCheck |-> r.nonce_check]
 
 TraceInit == l = 1 /\ Rec[1].l = "RESET" /\ InitFor(BlockOf(Rec[1]))
 
@@ -87,6 +87,10 @@ TraceNext ==
   \/ Has("R_Read") /\ R_Read(T, R.loc) /\ R.tx = loc[T].tx
        /\ R.ver = VerStr(ReadOf(T, R.loc).ver) /\ R.val = ReadOf(T, R.loc).val /\ R.est = ReadOf(T, R.loc).est
   \/ Has("R_BenBlock") /\ R_BenBlock(T, R.blocker)
+  \* the entry an attempt leaves in the beneficiary history (recorded only when the HIST hooks are on): exact iff the
+  \* attempt is kept as a result, i.e. it read no estimate of any kind - the same rule as the estimate flag of P_Pub
+  \/ Has("HE_Record") /\ UNCHANGED vars /\ T \in Workers /\ pc[T] \notin {"e_run", "e_done"}
+       /\ R.exact = (~loc[T].conflict /\ loc[T].kind = "ok")
   \/ Has("P_Pub") /\ P_Pub(T, R.loc, R.val) /\ R.tx = loc[T].tx /\ R.inc = loc[T].inc /\ R.est = (loc[T].blockers # {})
   \/ Has("E_Done") /\ E_Done(T, KindOf(R)) /\ R.tx = loc[T].tx /\ R.blocked = (loc[T].blockers # {})
        /\ SetOf(R.writes) = loc[T].pubd /\ SetOf(R.blockers) = loc[T].blockers
